@@ -29,6 +29,11 @@ impl<K, V, S> Cache<K, V, S> {
         self.base.verif_write_queue_capacity()
     }
 
+    /// Capacity of the bounded read operation queue.
+    pub fn verif_read_queue_capacity(&self) -> usize {
+        self.base.verif_read_queue_capacity()
+    }
+
     pub fn verif_is_sync_running(&self) -> bool {
         self.base.verif_is_sync_running()
     }
